@@ -234,6 +234,28 @@ func runC11(tier string, seed int64, outdir string, replay string) error {
 			builderCases(s, randString(rr, 12))
 		}
 	}
+	// long inputs (host names up to 253 characters, long e-mail addresses, longer still): a length-dependent
+	// step would show here (every clause is length-independent in the model)
+	for i := 0; i < nRand/20+40; i++ {
+		n := []int{200, 239, 240, 241, 249, 250, 253, 255, 256, 300, 600}[i%11]
+		var b strings.Builder
+		for b.Len() < n {
+			switch rr.Intn(12) {
+			case 0:
+				b.WriteString(".")
+			case 1:
+				b.WriteString([]string{"/", "*", "+", " ", ":", "@", "..", "é", "#"}[rr.Intn(9)])
+			default:
+				b.WriteByte("abcdefghijklmnopqrstuvwxyzABC0123456789-_"[rr.Intn(41)])
+			}
+		}
+		s := b.String()
+		safeCase(s)
+		if i%4 == 0 {
+			builderCases(s, "example.com")
+			builderCases("https://acme.example/dir", s)
+		}
+	}
 	emails := []string{"", "foo@example.com", "@x", "a@", "A.B@Example.com", "..@..", "./.@a", "me", "Ünï@x.y"}
 	cas := []string{"https://acme-v02.api.letsencrypt.org/directory", "https://ca.example/a/b/../c", "not a url", "https://[::1]:14000/dir", "//../..", "https://ca.example/..\\..", "http://x/%2e%2e/"}
 	// CA strings that url.Parse rejects (issuerKey then keeps the raw string), with traversal bodies
